@@ -394,4 +394,4 @@ def cells_same(a, b):
 
 
 if __name__ == '__main__':
-    main()
+    guarded_main('C05', main)
